@@ -5,7 +5,52 @@ use std::time::Duration;
 pub struct Res {
     generation: u64,
 }
-impl Reset for Res {}
+/// `Reset::reset` is the one place where `give_back_resource` runs caller-supplied code *before* it takes the pool's
+/// locks (for the real resource it is `MKMap::compress`, which takes time).  The harness uses it as a preemption point:
+/// when armed, the solver may let another user run one complete operation there (context bound 1) — a refresh to the
+/// next generation or a raw give-back — before the interrupted give-back resumes.
+static mut PREEMPT_POOL: *const ResourcePool<Res> = std::ptr::null();
+static mut PREEMPT_ARMED: bool = false;
+static mut PREEMPTED: bool = false;
+
+impl Reset for Res {
+    fn reset(&mut self) -> anyhow::Result<()> {
+        unsafe {
+            if PREEMPT_ARMED && !PREEMPT_POOL.is_null() && kani::any() {
+                PREEMPT_ARMED = false;
+                PREEMPTED = true;
+                let pool = &*PREEMPT_POOL;
+                if kani::any() {
+                    refresh_dyn(pool);
+                } else {
+                    let g: u64 = kani::any();
+                    pool.give_back_resource(Res { generation: g }, g).unwrap();
+                }
+            }
+        }
+        Ok(())
+    }
+}
+
+pub fn refresh_dyn(pool: &ResourcePool<Res>) {
+    let d = pool.discriminant().unwrap();
+    kani::assume(d < u64::MAX);
+    let dn = d + 1;
+    pool.set_discriminant(dn).unwrap();
+    pool.clear();
+    if pool.size() >= 1 && kani::any() {
+        pool.give_back_resource(Res { generation: dn }, dn).unwrap();
+        if pool.size() >= 2 && kani::any() {
+            pool.give_back_resource(Res { generation: dn }, dn).unwrap();
+        }
+    }
+}
+
+pub fn arm(on: bool) {
+    unsafe {
+        PREEMPT_ARMED = on;
+    }
+}
 
 // ---- stubs (listed in evidence) ---------------------------------------------------------------
 pub fn notify_one_noop(_c: &std::sync::Condvar) {}
@@ -164,7 +209,16 @@ pub enum Op {
 /// STEPS solver-chosen operations by USERS users from an arbitrary valid state, invariant checked
 /// after every operation, everything still held returned by a solver-chosen path, pool drained.
 pub fn history<const STEPS: usize, const SIZE: usize, const IDLE: usize, const USERS: usize>() {
+    history_p::<STEPS, SIZE, IDLE, USERS, false>()
+}
+
+pub fn history_p<const STEPS: usize, const SIZE: usize, const IDLE: usize, const USERS: usize, const PREEMPT: bool>() {
     let pool = pool_from_arbitrary_valid_state::<IDLE, SIZE>();
+    if PREEMPT {
+        unsafe {
+            PREEMPT_POOL = &pool as *const _;
+        }
+    }
     let mut h0: Option<ResourcePoolItem<'_, Res>> = None;
     let mut h1: Option<ResourcePoolItem<'_, Res>> = None;
     let mut step = 0;
@@ -178,9 +232,15 @@ pub fn history<const STEPS: usize, const SIZE: usize, const IDLE: usize, const U
                 if second { do_acquire(&pool, &mut h1) } else { do_acquire(&pool, &mut h0) }
             }
             Op::GiveBack => {
+                arm(PREEMPT);
                 if second { give_back_any(&pool, &mut h1) } else { give_back_any(&pool, &mut h0) }
+                arm(false);
             }
-            Op::RawGiveBack => raw_give_back(&pool),
+            Op::RawGiveBack => {
+                arm(PREEMPT);
+                raw_give_back(&pool);
+                arm(false);
+            }
             Op::Refresh => {
                 refresh_any::<SIZE>(&pool);
                 if h0.is_some() || h1.is_some() {
@@ -193,8 +253,11 @@ pub fn history<const STEPS: usize, const SIZE: usize, const IDLE: usize, const U
         step += 1;
     }
     kani::cover!(refreshed_while_held, "witness: item held across a refresh");
+    arm(PREEMPT);
     give_back_any(&pool, &mut h0);
     give_back_any(&pool, &mut h1);
+    arm(false);
+    kani::cover!(!PREEMPT || unsafe { PREEMPTED }, "witness: a give-back was preempted inside reset (preempt harnesses)");
     check_count(&pool);
     assert_idle_all_current(&pool, SIZE);
     kani::cover!(true, "witness: end of history reachable");
@@ -217,6 +280,25 @@ macro_rules! history_harness {
         }
     };
 }
+macro_rules! preempt_harness {
+    ($name:ident, $steps:expr, $size:expr, $idle:expr, $users:expr) => {
+        #[kani::proof]
+        #[kani::unwind(6)]
+        #[kani::stub(std::sync::Condvar::notify_one, notify_one_noop)]
+        #[kani::stub(std::sync::Condvar::wait_timeout, wait_timeout_cut)]
+        #[kani::stub(alloc::fmt::format, fmt_format_stub)]
+        #[kani::stub(std::backtrace::Backtrace::capture, backtrace_stub)]
+        #[kani::stub(std::collections::VecDeque::grow, grow_stub)]
+        #[kani::stub(<anyhow::Error as core::ops::Drop>::drop, anyhow_drop_noop)]
+        pub fn $name() {
+            history_p::<$steps, $size, $idle, $users, true>();
+        }
+    };
+}
+// one preemption inside a give-back (quick: 2 steps; thorough: 3)
+preempt_harness!(c18_pre_h2_s2_i1_u1, 2, 2, 1, 1);
+preempt_harness!(c18_pre_h3_s2_i1_u1, 3, 2, 1, 1);
+preempt_harness!(c18_pre_h2_s2_i2_u2, 2, 2, 2, 2);
 // quick tier
 history_harness!(c18_sym_h3_s2_i1_u1, 3, 2, 1, 1);
 history_harness!(c18_sym_h3_s1_i1_u1, 3, 1, 1, 1);
